@@ -12,11 +12,21 @@
 #include <cstdio>
 #include <cstdlib>
 
+#if defined(JOHNMCFARLANE_CNL_VERIF)
+// verification hook H2: lets a harness observe (and leave, by longjmp) every abort/unreachable
+extern "C" void johnmcfarlane_cnl_verif_abort_hook(char const* message);
+#endif
+
 namespace cnl {
     namespace _impl {
         template<class Result>
         [[noreturn]] constexpr auto abort(char const* message) noexcept -> Result
         {
+#if defined(JOHNMCFARLANE_CNL_VERIF)
+            if (!__builtin_is_constant_evaluated()) {
+                johnmcfarlane_cnl_verif_abort_hook(message);
+            }
+#endif
             (void)std::fputs(message, stderr);
             (void)std::fputc('\n', stderr);
             std::abort();
